@@ -259,6 +259,17 @@ func (a *DateArg) Parse() error {
 	if len(str) != 10 {
 		return ErrInval
 	}
+	for i := 0; i < len(str); i++ {
+		// Only digits and the two dashes: strconv.Atoi below would
+		// otherwise take a sign.
+		if i == 4 || i == 7 {
+			if str[i] != '-' {
+				return ErrInval
+			}
+		} else if str[i] < '0' || str[i] > '9' {
+			return ErrInval
+		}
+	}
 
 	/* 4DIGIT */
 	i = strings.Index(str, "-")
@@ -783,6 +794,10 @@ func (a *FractionDigitsArg) Parse() error {
 	case 1:
 		fallthrough
 	case 2:
+		// 1..18 without sign or leading zero
+		if !isYangInteger(str, false) {
+			return ErrInval
+		}
 		a.fdigits, err = strconv.Atoi(str)
 		if err != nil {
 			return errors.New(ErrInval.Error() + ": " + err.Error())
